@@ -377,40 +377,43 @@ Record sched_opts := mkSO {
 Definition ect_map := list (Z * Z).   (* estimated_completion_time, insertion ordered *)
 
 (* phase 1: materialised tasks *)
-Fixpoint ect_init (g : tgraph) (o : sched_opts) (ns : list Z) (ect : ect_map) (queue : list Z)
+Fixpoint ect_init (g : tgraph) (time : Z) (retract : bool) (ns : list Z) (ect : ect_map) (queue : list Z)
   : result (ect_map * list Z) :=
   match ns with
   | [] => Ok (ect, queue)
   | n :: ns' =>
       let t := tg_task g n in
-      match ect_initial (tg_state g n) (t_completion_time (tt_dyn t)) (so_time o) (tg_remaining g n)
-                        (t_release_time (tt_dyn t)) (tt_expected_start t) (slowest_of t) (so_retract o) with
+      match ect_initial (tg_state g n) (t_completion_time (tt_dyn t)) time (tg_remaining g n)
+                        (t_release_time (tt_dyn t)) (tt_expected_start t) (slowest_of t) retract with
       | Err e => Err e
-      | Ok None => ect_init g o ns' ect queue
-      | Ok (Some v) => ect_init g o ns' (al_put n v ect) (queue ++ [n])
+      | Ok None => ect_init g time retract ns' ect queue
+      | Ok (Some v) => ect_init g time retract ns' (al_put n v ect) (queue ++ [n])
       end
   end.
 
+(* the estimate that a parent with estimate `ct` proposes for its child c *)
+Definition child_estimate (g : tgraph) (ct c : Z) : Z :=
+  let sl := tg_slowest g c in Z.max (ct + sl) (t_release_time (tt_dyn (tg_task g c)) + sl).
+
 (* propagation to the children of one popped task *)
-Fixpoint ect_children (g : tgraph) (o : sched_opts) (ct : Z) (cs : list Z) (ect : ect_map) (queue : list Z)
+Fixpoint ect_children (g : tgraph) (retract : bool) (ct : Z) (cs : list Z) (ect : ect_map) (queue : list Z)
   : ect_map * list Z :=
   match cs with
   | [] => (ect, queue)
   | c :: cs' =>
-      if sched_child_skipped (so_retract o) (tg_state g c) then ect_children g o ct cs' ect queue
+      if sched_child_skipped retract (tg_state g c) then ect_children g retract ct cs' ect queue
       else
-        let sl := tg_slowest g c in
-        let cct := Z.max (ct + sl) (t_release_time (tt_dyn (tg_task g c)) + sl) in
+        let cct := child_estimate g ct c in
         let cur := al_get c ect in
         if sched_child_updates (match cur with Some _ => true | None => false end) cct
                                (match cur with Some v => v | None => 0 end)
-        then ect_children g o ct cs' (al_put c cct ect) (queue ++ [c])
-        else ect_children g o ct cs' ect queue
+        then ect_children g retract ct cs' (al_put c cct ect) (queue ++ [c])
+        else ect_children g retract ct cs' ect queue
   end.
 
 (* phase 2: the work-list loop *)
-Fixpoint ect_prop (fuel : nat) (g : tgraph) (o : sched_opts) (ect : ect_map) (queue : list Z) (draws : list Z)
-  : result (ect_map * list Z) :=
+Fixpoint ect_prop (fuel : nat) (g : tgraph) (retract : bool) (policy : bp_policy) (ect : ect_map)
+                  (queue : list Z) (draws : list Z) : result (ect_map * list Z) :=
   match queue with
   | [] => Ok (ect, draws)
   | t :: q =>
@@ -420,12 +423,12 @@ Fixpoint ect_prop (fuel : nat) (g : tgraph) (o : sched_opts) (ect : ect_map) (qu
           match al_get t ect with
           | None => Err 4
           | Some ct =>
-              match (if tg_conditional g t then resolve_conditional g t (so_policy o) draws
+              match (if tg_conditional g t then resolve_conditional g t policy draws
                      else Ok (tg_children g t, draws)) with
               | Err e => Err e
               | Ok (cs, draws') =>
-                  let '(ect', q') := ect_children g o ct cs ect q in
-                  ect_prop f g o ect' q' draws'
+                  let '(ect', q') := ect_children g retract ct cs ect q in
+                  ect_prop f g retract policy ect' q' draws'
               end
           end
       end
@@ -458,13 +461,14 @@ Definition preempt_extra (g : tgraph) (o : sched_opts) : list Z :=
     end
   else [].
 
-Definition tg_ect (g : tgraph) (o : sched_opts) (draws : list Z) : result (ect_map * list Z) :=
-  bind (ect_init g o (tg_nodes g) [] [])
-       (fun eq => ect_prop (ect_fuel g) g o (fst eq) (snd eq) draws).
+Definition tg_ect (g : tgraph) (time : Z) (retract : bool) (policy : bp_policy) (draws : list Z)
+  : result (ect_map * list Z) :=
+  bind (ect_init g time retract (tg_nodes g) [] [])
+       (fun eq => ect_prop (ect_fuel g) g retract policy (fst eq) (snd eq) draws).
 
 Definition tg_schedulable (g : tgraph) (o : sched_opts) (draws : list Z) : result (list Z * list Z) :=
   if negb (tg_ok g) then Err 4
-  else bind (tg_ect g o draws) (fun ed =>
+  else bind (tg_ect g (so_time o) (so_retract o) (so_policy o) draws) (fun ed =>
        bind (topo_sort g) (fun order =>
        Ok (offer_loop g o (fst ed) order false ++ preempt_extra g o, snd ed))).
 
@@ -523,3 +527,117 @@ Definition wl_observe (x : list tgraph * sched_opts * list Z) : val :=
 Definition mk_ttask (s : task_state) (release deadline raw completion prob : Z) (term cond : bool)
                     (estart : Z) (rts : list Z) : ttask :=
   mkTT (mkTask s TS_VIRTUAL release (-1) completion raw (-1) (-1) deadline) prob term cond estart rts.
+
+(* ====================== monitors: decidable forms of the properties ======================
+   They are applied to the IMPLEMENTATION's observations and do not follow the traversal of the
+   code: the doomed set is computed by fixpoint iteration, untaken branches by a reachability closure. *)
+Definition is_cancelled (g : tgraph) (n : Z) : bool := task_state_eqb (tg_state g n) TS_CANCELLED.
+Definition cancellableb (s : task_state) : bool :=
+  task_state_eqb s TS_VIRTUAL || task_state_eqb s TS_RELEASED || task_state_eqb s TS_SCHEDULED.
+
+Definition doomed_step (g : tgraph) (s : list Z) : list Z :=
+  s ++ filter (fun c => negb (zmem c s) &&
+                 existsb (fun p => zmem p s) (tg_parents g c) &&
+                 (negb (tg_terminal g c) ||
+                  forallb (fun p => zmem p s || is_cancelled g p) (tg_parents g c))) (tg_nodes g).
+Fixpoint doomed_iter (k : nat) (g : tgraph) (s : list Z) : list Z :=
+  match k with O => s | S k' => doomed_iter k' g (doomed_step g s) end.
+Definition doomed_fix (g : tgraph) (t : Z) : list Z := doomed_iter (length (tg_nodes g)) g [t].
+
+Definition cancel_closedb (g : tgraph) : bool :=
+  forallb (fun p => negb (is_cancelled g p) ||
+                    forallb (fun c => tg_terminal g c || is_cancelled g c) (tg_children g p)) (tg_nodes g)
+  && forallb (fun c => negb (tg_terminal g c) || match tg_parents g c with [] => true | _ => false end
+                       || negb (forallb (is_cancelled g) (tg_parents g c)) || is_cancelled g c) (tg_nodes g).
+
+Definition same_set (a b : list Z) : bool := forallb (fun x => zmem x b) a && forallb (fun x => zmem x a) b.
+Definition state_after (after : list (Z * Z)) (n : Z) : Z := match al_get n after with Some s => s | None => 0 end.
+Definition cancelled_value : Z := task_state_value TS_CANCELLED.
+
+(* one successful TaskGraph.cancel call: graph before, requested task, returned tasks, state values after *)
+Definition closure_check (x : tgraph * Z * list Z * list (Z * Z)) : bool :=
+  let '(g, t, cs, after) := x in
+  let d := filter (fun n => negb (is_cancelled g n)) (doomed_fix g t) in
+  cancel_closedb g && znodup cs && same_set cs d &&
+  forallb (fun n => cancellableb (tg_state g n)) cs &&
+  forallb (fun n => state_after after n =? (if zmem n cs then cancelled_value else task_state_value (tg_state g n)))
+          (tg_nodes g).
+(* a TaskGraph.cancel call that raised ValueError: some doomed task was in a non-cancellable state *)
+Definition closure_err_check (x : tgraph * Z) : bool :=
+  let '(g, t) := x in
+  negb (cancel_closedb g) ||
+  existsb (fun n => negb (is_cancelled g n) && negb (cancellableb (tg_state g n))) (doomed_fix g t).
+
+(* C07: nodes reachable from u through non-terminal nodes only (u included when it is not terminal) *)
+Definition branch_step (g : tgraph) (s : list Z) : list Z :=
+  s ++ filter (fun c => negb (zmem c s) && negb (tg_terminal g c) &&
+                        existsb (fun p => zmem p s) (tg_parents g c)) (tg_nodes g).
+Fixpoint branch_iter (k : nat) (g : tgraph) (s : list Z) : list Z :=
+  match k with O => s | S k' => branch_iter k' g (branch_step g s) end.
+Definition branch_of (g : tgraph) (u : Z) : list Z :=
+  if tg_terminal g u then [] else branch_iter (length (tg_nodes g)) g [u].
+
+(* one successful notify_task_completion of a completed CONDITIONAL task that drew a child:
+   graph before, task, draw, released, cancelled, state values after *)
+Definition c07_check (x : tgraph * Z * Z * list Z * list Z * list (Z * Z)) : bool :=
+  let '(g, t, draw, rel, canc, after) := x in
+  let ks := tg_children g t in
+  match nth_z ks draw with
+  | None => false
+  | Some k =>
+      let untaken := filter (fun u => negb (u =? k)) ks in
+      (* exactly the drawn child is released, and it has a non-zero probability *)
+      (match rel with [r] => r =? k | _ => false end) && (0 <? tg_prob g k) &&
+      (* every task of an untaken branch, up to but excluding the join, is cancelled *)
+      forallb (fun u => forallb (fun d => state_after after d =? cancelled_value) (branch_of g u)) untaken &&
+      (* a join that is not itself an untaken child and keeps a live parent is not cancelled by this *)
+      forallb (fun j => negb (tg_terminal g j) || zmem j untaken || is_cancelled g j ||
+                        negb (existsb (fun p => negb (state_after after p =? cancelled_value)) (tg_parents g j)) ||
+                        negb (state_after after j =? cancelled_value)) (tg_nodes g) &&
+      (* the returned list is exactly the set of tasks that became CANCELLED, nothing else changed *)
+      forallb (fun n => if zmem n canc then (state_after after n =? cancelled_value) && negb (is_cancelled g n)
+                        else state_after after n =? task_state_value (tg_state g n)) (tg_nodes g)
+  end.
+
+(* C18: one get_schedulable_tasks call without worker pools: graph, options, returned tasks *)
+Definition c18_frontier_check (x : tgraph * sched_opts * list Z) : bool :=
+  let '(g, o, fr) := x in
+  forallb (fun n => negb (task_state_eqb (tg_state g n) TS_RELEASED
+                          && (t_release_time (tt_dyn (tg_task g n)) <=? so_time o + so_lookahead o))
+                    || zmem n fr) (tg_nodes g) &&
+  forallb (fun n => let s := tg_state g n in
+                    negb (task_state_eqb s TS_COMPLETED) && negb (task_state_eqb s TS_CANCELLED) &&
+                    (negb (task_state_eqb s TS_SCHEDULED) || so_retract o || so_preemption o) &&
+                    (negb (task_state_eqb s TS_RUNNING) || so_preemption o) &&
+                    zmem n (tg_nodes g)) fr.
+(* monotonicity: two calls on the same graph and draws, the second with a larger lookahead and/or
+   release_taskgraphs switched on *)
+Definition c18_mono_check (x : list Z * list Z) : bool := forallb (fun n => zmem n (snd x)) (fst x).
+(* states in which a policy that does not plan ahead is never offered an unreleased task early *)
+Definition frontier_sane (g : tgraph) (time : Z) : bool :=
+  forallb (fun n =>
+    let s := tg_state g n in
+    (0 <? tg_slowest g n) &&
+    (negb (task_state_eqb s TS_RUNNING || task_state_eqb s TS_PREEMPTED) || (0 <? tg_remaining g n)) &&
+    (negb (task_state_eqb s TS_SCHEDULED) || (time <? tt_expected_start (tg_task g n) + tg_remaining g n)) &&
+    (negb (task_state_eqb s TS_COMPLETED || task_state_eqb s TS_EVICTED) ||
+       (t_completion_time (tt_dyn (tg_task g n)) <=? time)) &&
+    negb (tg_conditional g n) &&
+    (* a VIRTUAL task with an unfinished parent hangs below a task that is released / scheduled / running,
+       or below another such VIRTUAL task *)
+    (negb (task_state_eqb s TS_VIRTUAL) || forallb (tg_complete g) (tg_parents g n) ||
+     existsb (fun p => let sp := tg_state g p in
+                task_state_eqb sp TS_RELEASED || task_state_eqb sp TS_SCHEDULED || task_state_eqb sp TS_RUNNING
+                || task_state_eqb sp TS_PREEMPTED
+                || (task_state_eqb sp TS_VIRTUAL && negb (forallb (tg_complete g) (tg_parents g p))))
+             (tg_parents g n))) (tg_nodes g).
+Definition c18_no_plan_ahead_check (x : tgraph * sched_opts * list Z) : bool :=
+  let '(g, o, fr) := x in
+  negb ((so_lookahead o =? 0) && negb (so_retract o) && negb (so_release_tg o) && frontier_sane g (so_time o)) ||
+  forallb (fun n => negb (task_state_eqb (tg_state g n) TS_VIRTUAL) || forallb (tg_complete g) (tg_parents g n)) fr.
+(* notify_task_completion of a completed non-conditional task: graph, task, released tasks *)
+Definition c18_children_check (x : tgraph * Z * list Z) : bool :=
+  let '(g, t, rel) := x in
+  same_set rel (filter (fun c => negb (is_cancelled g c) &&
+                                 (tg_terminal g c || forallb (tg_complete g) (tg_parents g c))) (tg_children g t))
+  && znodup rel.
